@@ -3,8 +3,9 @@
 (* Formula objects with identity (property C02, and the Hill action of     *)
 (* C19): a pool of Python variables naming formula objects, and the        *)
 (* constructors / operators that create or mutate them.  The model value   *)
-(* of an object is its composition, a bag atom -> dyadic count; the only   *)
-(* mutating operation is += (every variable aliasing the object sees it).  *)
+(* of an object is its composition, a bag atom -> dyadic count; the        *)
+(* mutating operations are += and change_table (every variable aliasing    *)
+(* the object sees them).                                                  *)
 (*   New(v, how, b)   formula(str | atom | dict | seq)   new object        *)
 (*   Copy(v, w)       formula(w)                         new object        *)
 (*   Add(v, a, b)     a + b                              new object        *)
@@ -12,12 +13,17 @@
 (*   Hill(v, a)       a.hill                             new object        *)
 (*   IAdd(a, b)       a += b                             mutates a's object*)
 (*   Alias(v, w)      v = w                              same object       *)
+(*   ChTab(a, t)      a.change_table(table t)            mutates a's object*)
+(* Atoms live in one of two tables (the history's home table 0 and the     *)
+(* other one, 1): a bag has 2*NAtoms slots, slot NAtoms*t + i being atom i *)
+(* of table t; change_table moves the whole composition into one table.    *)
 (* Requirement checked on the model by TLC and on the code by trace        *)
 (* validation: compositions are additive (Additive), operations returning  *)
 (* a new formula leave every existing object unchanged (OperandsUnchanged).*)
 (***************************************************************************)
 EXTENDS Integers, Sequences, FiniteSets, TLC
-CONSTANTS Vars, NAtoms, Bases, Mults, MaxObjs, MaxDepth
+CONSTANTS Vars, NAtoms, Bases, Mults, MaxObjs, MaxDepth,
+          Tabs      \* {0} or {0, 1}: tables in which formulas are built / into which they are moved
 \* dyadic rationals n / 2^e
 RECURSIVE Pow2(_)
 Pow2(k) == IF k = 0 THEN 1 ELSE 2 * Pow2(k - 1)
@@ -29,9 +35,15 @@ QAdd(x, y) == QNorm(IF x.e >= y.e THEN Q(x.n + y.n * Pow2(x.e - y.e), x.e) ELSE 
 QZero == Q(0, 0)
 MultVal(m) == CASE m = "0" -> Q(0, 0) [] m = "0.5" -> Q(1, 1) [] m = "1" -> Q(1, 0) [] m = "2" -> Q(2, 0)
                 [] m = "3" -> Q(3, 0) [] m = "1.5" -> Q(3, 1) [] m = "0.25" -> Q(1, 2)
-EmptyBag == [a \in 1..NAtoms |-> QZero]
-BagAdd(x, y) == [a \in 1..NAtoms |-> QAdd(x[a], y[a])]
-BagScale(n, x) == [a \in 1..NAtoms |-> QMul(n, x[a])]
+NSlots == 2 * NAtoms
+EmptyBag == [a \in 1..NSlots |-> QZero]
+BagAdd(x, y) == [a \in 1..NSlots |-> QAdd(x[a], y[a])]
+BagScale(n, x) == [a \in 1..NSlots |-> QMul(n, x[a])]
+AtomOfSlot(s) == ((s - 1) % NAtoms) + 1
+\* a home-table bag written in table t; the whole composition moved into table t
+InTable(x, t) == IF t = 0 THEN x ELSE [a \in 1..NSlots |-> IF a > NAtoms THEN x[a - NAtoms] ELSE QZero]
+MoveTo(x, t) == [a \in 1..NSlots |-> IF (a > NAtoms) = (t = 1) THEN QAdd(x[AtomOfSlot(a)], x[AtomOfSlot(a) + NAtoms]) ELSE QZero]
+TabOf(op) == IF "t" \in DOMAIN op THEN op.t ELSE 0
 \* base formulas over atom indices 1..7 (the harness maps them to C H O Fe{2+} Fe{3+} O[18] D or to other atoms of the same kinds)
 BaseBag(b) ==
   CASE b = "CH4"   -> [EmptyBag EXCEPT ![1] = Q(1, 0), ![2] = Q(4, 0)]
@@ -59,14 +71,16 @@ Enabled(s, op) ==
     [] op.op = "rmul"  -> BoundIn(s, op.a) /\ s.nobj < MaxObjs
     [] op.op = "iadd"  -> BoundIn(s, op.a) /\ BoundIn(s, op.b)
     [] op.op = "alias" -> BoundIn(s, op.w) /\ op.v # op.w
+    [] op.op = "chtab" -> BoundIn(s, op.a)
 ApplyOp(s, op) ==
-  CASE op.op = "new"   -> NewObjIn(s, op.v, BaseBag(op.b))
+  CASE op.op = "new"   -> NewObjIn(s, op.v, InTable(BaseBag(op.b), TabOf(op)))
     [] op.op = "copy"  -> NewObjIn(s, op.v, s.obj[s.pool[op.w]])
     [] op.op = "hill"  -> NewObjIn(s, op.v, s.obj[s.pool[op.a]])
     [] op.op = "add"   -> NewObjIn(s, op.v, BagAdd(s.obj[s.pool[op.a]], s.obj[s.pool[op.b]]))
     [] op.op = "rmul"  -> NewObjIn(s, op.v, BagScale(MultVal(op.n), s.obj[s.pool[op.a]]))
     [] op.op = "iadd"  -> [s EXCEPT !.obj[s.pool[op.a]] = BagAdd(@, s.obj[s.pool[op.b]])]
     [] op.op = "alias" -> [s EXCEPT !.pool[op.v] = s.pool[op.w]]
+    [] op.op = "chtab" -> [s EXCEPT !.obj[s.pool[op.a]] = MoveTo(@, op.t)]
 
 VARIABLES pool, obj, nobj, hist
 fvars == <<pool, obj, nobj, hist>>
@@ -76,7 +90,8 @@ FInit == pool = S0.pool /\ obj = S0.obj /\ nobj = S0.nobj /\ hist = <<>>
 Do(op) == /\ Enabled(Cur, op)
           /\ LET t == ApplyOp(Cur, op) IN pool' = t.pool /\ obj' = t.obj /\ nobj' = t.nobj
           /\ hist' = Append(hist, op)
-Ops == {[op |-> "new", v |-> v, how |-> how, b |-> b] : v \in Vars, how \in Hows, b \in Bases}
+Ops == {[op |-> "new", v |-> v, how |-> how, b |-> b, t |-> t] : v \in Vars, how \in Hows, b \in Bases, t \in Tabs}
+       \cup {[op |-> "chtab", a |-> a, t |-> t] : a \in Vars, t \in Tabs}
        \cup {[op |-> "copy", v |-> v, w |-> w] : v \in Vars, w \in Vars}
        \cup {[op |-> "alias", v |-> v, w |-> w] : v \in Vars, w \in Vars}
        \cup {[op |-> "hill", v |-> v, a |-> a] : v \in Vars, a \in Vars}
@@ -89,7 +104,11 @@ FSpec == FInit /\ [][FNext]_fvars
 \* ---- properties on the model ---------------------------------------------------
 LastOp == hist'[Len(hist')]
 OperandsUnchanged ==     \* only += changes an existing object, and only the one its left operand names
-  [][\A o \in 1..nobj : (obj'[o] # obj[o]) => (LastOp.op = "iadd" /\ o = pool[LastOp.a])]_fvars
+  [][\A o \in 1..nobj : (obj'[o] # obj[o]) => (LastOp.op \in {"iadd", "chtab"} /\ o = pool[LastOp.a])]_fvars
+\* change_table keeps the composition: the per-atom totals over both tables are unchanged
+ChTabKeepsComposition ==
+  [][LastOp.op = "chtab" => \A i \in 1..NAtoms : LET o == pool[LastOp.a]
+                                                 IN QAdd(obj'[o][i], obj'[o][i + NAtoms]) = QAdd(obj[o][i], obj[o][i + NAtoms])]_fvars
 ObjectsNeverVanish == [][nobj' >= nobj /\ \A v \in Vars : Bound(v) => pool'[v] # None]_fvars
-NonNegative == \A o \in 1..nobj, a \in 1..NAtoms : obj[o][a].n >= 0
+NonNegative == \A o \in 1..nobj, a \in 1..NSlots : obj[o][a].n >= 0
 =============================================================================
